@@ -502,7 +502,85 @@ def unit_SfdlChars():
     G.FACTS["SfdlChars"] = vals
 
 
-UNITS = {"Catalogue": unit_Catalogue, "DataItems": unit_DataItems, "SfdlChars": unit_SfdlChars}
+def unit_SfdlKeys():
+    """Which attribute the shape construction reads for a member's name/key (source text of the expressions):
+    `Array.__init__` (`hasattr(data_format, X)` / `self.name = data_format.Y`), `DataItemBase.__init__` (`self.name = …`),
+    `List._generate` (the key expression per `isinstance(item_value, Array|List|Base)` branch), `List.get_name_from_format`
+    (what it returns for a leading string and otherwise), `List.__init__` (the default `self.name`)."""
+    facts = {}
+    # Array.__init__
+    init = G.P.find_function(G.parse("secs/variables/array.py"), "Array", "__init__")
+    found = None
+    for node in ast.walk(init):
+        if isinstance(node, ast.If):
+            chain = node
+            while chain is not None:
+                t = chain.test
+                if isinstance(t, ast.Call) and ast.unparse(t.func) == "hasattr" and len(t.args) == 2 and ast.unparse(t.args[0]) == "data_format":
+                    tgt = [st for st in chain.body if isinstance(st, ast.Assign) and ast.unparse(st.targets[0]) == "self.name"]
+                    if len(tgt) != 1:
+                        raise Broken("Array.__init__: hasattr branch does not assign self.name once")
+                    found = (literal(t.args[1], "Array.__init__ hasattr"), ast.unparse(tgt[0].value))
+                nxt = chain.orelse
+                chain = nxt[0] if len(nxt) == 1 and isinstance(nxt[0], ast.If) else None
+    if found is None:
+        raise Broken("Array.__init__: no `hasattr(data_format, …)` naming branch")
+    facts["array_hasattr"], facts["array_name_expr"] = found
+    # DataItemBase.__init__
+    init = G.P.find_function(G.parse("secs/data_items/base.py"), "DataItemBase", "__init__")
+    names = [ast.unparse(st.value) for st in init.body if isinstance(st, ast.Assign) and ast.unparse(st.targets[0]) == "self.name"]
+    if len(names) != 1:
+        raise Broken("DataItemBase.__init__: self.name is not assigned exactly once")
+    facts["item_instance_name"] = names[0]
+    # List._generate
+    gen = G.P.find_function(G.parse("secs/variables/list_type.py"), "List", "_generate")
+    keys = {}
+    for node in ast.walk(gen):
+        if isinstance(node, ast.If):
+            chain = node
+            while chain is not None:
+                t = chain.test
+                if isinstance(t, ast.Call) and ast.unparse(t.func) == "isinstance" and ast.unparse(t.args[0]) == "item_value":
+                    subs = [st for st in chain.body if isinstance(st, ast.Assign) and isinstance(st.targets[0], ast.Subscript)
+                            and ast.unparse(st.targets[0].value) == "result_data"]
+                    if len(subs) != 1 or ast.unparse(subs[0].value) != "item_value":
+                        raise Broken(f"List._generate: branch {ast.unparse(t)} does not file item_value once")
+                    keys[ast.unparse(t.args[1])] = ast.unparse(subs[0].targets[0].slice)
+                nxt = chain.orelse
+                chain = nxt[0] if len(nxt) == 1 and isinstance(nxt[0], ast.If) else None
+    for k in ("Array", "List", "Base"):
+        if k not in keys:
+            raise Broken(f"List._generate: no isinstance(item_value, {k}) branch")
+    facts["generate_keys"] = [keys["Array"], keys["List"], keys["Base"]]
+    # List.get_name_from_format / List.__init__
+    gnf = G.P.find_function(G.parse("secs/variables/list_type.py"), "List", "get_name_from_format")
+    rets = [ast.unparse(n.value) for n in sorted((n for n in ast.walk(gnf) if isinstance(n, ast.Return) and n.value is not None), key=lambda n: n.lineno)]
+    facts["name_from_format_returns"] = rets
+    linit = G.P.find_function(G.parse("secs/variables/list_type.py"), "List", "__init__")
+    dn = [st.value for st in linit.body if isinstance(st, ast.Assign) and ast.unparse(st.targets[0]) == "self.name"]
+    if len(dn) != 1:
+        raise Broken("List.__init__: self.name default not found")
+    facts["list_default_name"] = literal(dn[0], "List.__init__ self.name")
+    out = [G.HEADER.format(src="secsgem/secs/variables/array.py, list_type.py, secsgem/secs/data_items/base.py (name/key expressions)"),
+           "namespace SecsModel.Gen.SfdlKeys\n",
+           "/-- `Array.__init__`: `elif hasattr(data_format, <this>):` -/",
+           f"def arrayHasattr : List Char := {lean_cs(facts['array_hasattr'])}",
+           "/-- … `self.name = <this>` -/",
+           f"def arrayNameExpr : List Char := {lean_cs(facts['array_name_expr'])}",
+           "/-- `DataItemBase.__init__`: `self.name = <this>` -/",
+           f"def itemInstanceName : List Char := {lean_cs(facts['item_instance_name'])}",
+           "/-- `List._generate`: the key under which an `Array`, a `List`, any other `Base` member is filed -/",
+           "def generateKeys : List (List Char) := [" + ", ".join(lean_cs(k) for k in facts["generate_keys"]) + "]",
+           "/-- `List.get_name_from_format`: the returned expressions, in source order -/",
+           "def nameFromFormatReturns : List (List Char) := [" + ", ".join(lean_cs(k) for k in rets) + "]",
+           "/-- `List.__init__`: the default `self.name` -/",
+           f"def listDefaultName : List Char := {lean_cs(facts['list_default_name'])}",
+           "\nend SecsModel.Gen.SfdlKeys\n"]
+    G.write("SfdlKeys", "\n".join(out))
+    G.FACTS["SfdlKeys"] = facts
+
+
+UNITS = {"Catalogue": unit_Catalogue, "DataItems": unit_DataItems, "SfdlChars": unit_SfdlChars, "SfdlKeys": unit_SfdlKeys}
 
 if __name__ == "__main__":
     _selftest()
